@@ -88,6 +88,22 @@ def judgeEncAll (f : Framing) (m : Msg) (size : Int) (err : String) (nSize nCana
     if err ≠ "ok" then .ok else .violates "refuses-oversized-token"
   else .skip
 
+/-- `Options.Marshal` on its own, over the nil buffer and every buffer length `0..len`: the sizing pass
+reports the length of the RFC encoding with "too small", every shorter buffer reports the same length
+with "too small" without leaving its window, the exact buffer receives the RFC bytes. -/
+def judgeOptionsMarshal (os : List Opt) (n0 : Int) (err0 : String) (nSize nCanary : Nat) (full : Option EncObs) : Verdict :=
+  if err0 = "panic" then .violates "no-crash"
+  else if optsWF [] 0 os then
+    let e := encOpts 0 os
+    if n0 ≠ (e.length : Int) ∨ err0 ≠ "tooSmall" then .violates "size-equals-bytes-written"
+    else if nCanary ≠ e.length + 1 then .violates "no-write-beyond-buffer"
+    else if nSize ≠ e.length then .violates "too-small-reports-size"
+    else
+      match full with
+      | some o => if o.err = "ok" ∧ o.n = (e.length : Int) ∧ o.buf = e then .ok else .violates "encode-equals-rfc"
+      | none => .violates "encode-equals-rfc"
+  else .skip
+
 /-- Result of a decoder call: error name or (message, consumed). -/
 structure DecObs where
   err : String
